@@ -398,7 +398,8 @@ func intToValue(i int64) Value {
 	if i >= -maxInt && i <= maxInt {
 		return valueInt(i)
 	}
-	return valueFloat(i)
+	// float64(i) may round to ±2^53, which must stay an integer value
+	return floatToValue(float64(i))
 }
 
 func floatToInt(f float64) (result int64, ok bool) {
@@ -1618,7 +1619,7 @@ func (_neg) exec(vm *vm) {
 		if !math.IsNaN(f) {
 			f = -f
 		}
-		result = valueFloat(f)
+		result = floatToValue(f)
 	}
 
 	vm.stack[vm.sp-1] = result
@@ -1647,7 +1648,7 @@ func (_inc) exec(vm *vm) {
 	case valueInt:
 		v = intToValue(int64(n + 1))
 	default:
-		v = valueFloat(n.ToFloat() + 1)
+		v = floatToValue(n.ToFloat() + 1)
 	}
 
 	vm.stack[vm.sp-1] = v
@@ -1667,7 +1668,7 @@ func (_dec) exec(vm *vm) {
 	case valueInt:
 		v = intToValue(int64(n - 1))
 	default:
-		v = valueFloat(n.ToFloat() - 1)
+		v = floatToValue(n.ToFloat() - 1)
 	}
 
 	vm.stack[vm.sp-1] = v
